@@ -125,6 +125,26 @@ theorem tie_magic :
     magic = [0x69, 0x9d, 0xb1, 0x7b, 0x8e, 0xfb, 0x34, 0xff, 0xb1, 0xd8, 0xda, 0x6f, 0x60, 0xc1, 0x5d, 0xd1] := by
   decide
 
+/-- The source of the header framing, the version dispatch, the refill test and the `file.rs`
+callback are the ones `pHeader`, `Env.cfgOf`, `readMore` and `fileCb`/`OsRead.ev` were written
+against: magic first (`read_raw(MAGIC_LEN)`, compared with `UUID`), then one `read_string`; versions
+1 and 2 only, `EX` for every version but 1; a callback result that `is_some` continues, `None` is
+`UnexpectedEnd`; `File::read` `Ok(0)` is EOF, `Interrupted` is `Some(0)`, other errors are passed on. -/
+theorem tie_header_and_file :
+    Gen.Teehistorian.readMagic =
+      "{ let magic = p.read_raw(MAGIC_LEN)?; if magic != UUID { return Err(WrongMagic.into()); } Ok(()) }" ∧
+    Gen.Teehistorian.readHeaderCalls = ["read_magic", "read_header"] ∧
+    Gen.Teehistorian.headerTextRead = "string" ∧
+    Gen.Teehistorian.fromHeaderArms =
+      [("1", "Reader::empty(format::Version::V1)"), ("2", "Reader::empty(format::Version::V2)"),
+       ("_", "return Err(format::Error::UnknownVersion)")] ∧
+    Gen.Teehistorian.hasExBody = "{ self != Version::V1 }" ∧
+    Gen.Teehistorian.readMoreShape = ["is_some", "Ok(())", "Err(format::Error::UnexpectedEnd.into())"] ∧
+    Gen.Teehistorian.fileReadArms =
+      [("Ok(0)", "Ok(None)"), ("Ok(read)", "Ok(Some(read))"),
+       ("Err(ref e) if e.kind() == io::ErrorKind::Interrupted", "Ok(Some(0))"), ("Err(e)", "Err(e)")] := by
+  decide
+
 /-! ### Independence from the fragmentation -/
 
 /-- **Every read schedule yields the reference output — header included.**  `total` is *any* byte
